@@ -72,14 +72,15 @@ def main():
                 os.makedirs(os.path.join(wt, sub), exist_ok=True)
                 dst = os.path.join(wt, sub, "zz_seed_demo_test.go")
                 shutil.copy(demo, dst)
-                rc0, out0 = run(["go", "test", "-vet=off", "-count=1", "./" + sub + "/..."], wt)
+                race = ["-race"] if "-race" in open(demo).read() else []
+                rc0, out0 = run(["go", "test"] + race + ["-vet=off", "-count=1", "./" + sub + "/..."], wt)
                 meta["ran"].append({"cmd": "demo on the unchanged tree", "rc": rc0})
                 rc, out = run(["git", "apply", patch], wt)
                 if rc != 0:
                     summary.append((name, "patch does not apply: " + out[:200]))
                     continue
                 rcb, outb = run(["go", "build", "./..."], wt)
-                rc1, out1 = run(["go", "test", "-vet=off", "-count=1", "./" + sub + "/..."], wt)
+                rc1, out1 = run(["go", "test"] + race + ["-vet=off", "-count=1", "./" + sub + "/..."], wt)
                 meta["ran"].append({"cmd": "demo with the change", "rc": rc1})
                 os.remove(dst)
                 if sub == "test/demo":
